@@ -415,6 +415,35 @@ func full(a *hx.Args, in *input, res *hx.Result) {
 			res.Violation("honest-rejected", "the proof does not verify after a JSON round trip: "+v, hx.M{"part": "full", "key": kd})
 			continue
 		}
+		// the XOR rule of the prime proof's OR node (a^((p-1)/2) = +1 OR -1), observed at the structure check that carries it:
+		// with both sub-challenges free a prover could simulate both branches, and no alteration of a finished proof can show that
+		for _, pp := range []struct {
+			name  string
+			proof *keyproof.PrimeProof
+		}{{"pprime", &back.PprimeIsPrimeProof}, {"qprime", &back.QprimeIsPrimeProof}} {
+			ps := keyproof.VerifNewPrimeProofStructure(pp.name, uint((key.N.BitLen()+1)/2))
+			mask := randBits(krng, 200)
+			for _, which := range []string{"none", "APlus1Challenge", "AMin1Challenge"} {
+				pc := *pp.proof
+				switch which {
+				case "APlus1Challenge":
+					pc.APlus1Challenge = G(new(gobig.Int).Xor(M(pc.APlus1Challenge), mask))
+				case "AMin1Challenge":
+					pc.AMin1Challenge = G(new(gobig.Int).Xor(M(pc.AMin1Challenge), mask))
+				}
+				v := verdict(func() bool { return keyproof.VerifPrimeProofVerifyProofStructure(&ps, back.Challenge, pc) })
+				res.Eval("xor-rule/prime/" + which)
+				d := hx.M{"part": "full", "key": kd, "node": pp.name + " prime proof", "altered": which, "verdict": v}
+				switch {
+				case strings.HasPrefix(v, "panic"):
+					res.Violation("panic", "prime-proof structure check panicked: "+v, d)
+				case which == "none" && v != "accept":
+					res.Violation("honest-rejected", "structure check of an honest prime proof fails", d)
+				case which != "none" && v == "accept":
+					res.Violation("xor-rule", fmt.Sprintf("the %s prime proof passes its structure check although %s was changed: sub-challenges no longer XOR to the challenge", pp.name, which), d)
+				}
+			}
+		}
 		// the tree of the real proof against the grammar of the specification
 		tr := enumerate(&back)
 		leavesTotal += tr.nLeaves
